@@ -2,6 +2,7 @@ package worker
 
 import (
 	"fmt"
+	"os"
 	"sort"
 	"strings"
 	"testing"
@@ -384,6 +385,15 @@ func runC04(t *testing.T, sc *world.Scenario) *check.Result {
 			res.Probe("calibration-executions(short history)")
 		}
 		bound := 5*maxSettle[ai] + 50
+		if ai == 2 {
+			// the default PID loop resolves a residual error of a step or two through its integral term:
+			// one output step takes up to 1/(I*dt) cycles (I = 0.02, the documented default gain), whatever
+			// happened before. A self-calibrated bound below that time scale only measures whether the
+			// calibration executions happened to end inside the rounding dead-band.
+			if tInt := int(1/(0.02*sc.Tick.D().Seconds())) + 50; tInt > bound {
+				bound = tInt
+			}
+		}
 		sig := fmt.Sprintf("algo=%s range=%s", names[ai], rng)
 		for _, hc := range cases {
 			if ai != 2 && hc.name != "trajectory" && r.Bool(0.5) {
@@ -411,6 +421,9 @@ func runC04(t *testing.T, sc *world.Scenario) *check.Result {
 				continue
 			}
 			idx, fin, ok := settle(seq.req, band)
+			if os.Getenv("VERIF_C04_DUMP") != "" {
+				fmt.Fprintf(os.Stderr, "DUMP %s %s idx=%d bound=%d maxSettle=%d seq=%v\n", names[ai], hc.name, idx, bound, maxSettle[ai], seq.req[:min(len(seq.req), 160)])
+			}
 			if !ok || idx > bound {
 				res.Violate("C04", "settle-independent-of-history", "settle-independent-of-history "+sig+" history="+hc.name, 0, nil,
 					"%s, min=%d max=%d curve=%d tick=%s after %s (%s): not settled within %d cycles (fresh starts settle within %d); settled index %d of %d, tail %v",
